@@ -214,6 +214,13 @@ func (p c13) session(c *fw.Ctx) (inputs, expected []string, calls int) {
 			curIn = append(curIn, macros[defined].def())
 			defined++
 		}
+		// a name that only becomes a macro in a later input is an ordinary (here: unbound) call until then; that must
+		// not keep its later uses from being expanded
+		if defined > 0 && defined < nm && r.IntN(2) == 0 {
+			pre := fmt.Sprintf("catch(%s(1, 2)).err", macros[defined].name)
+			curIn = append(curIn, pre)
+			curExp = append(curExp, pre)
+		}
 		perIn := 1 + uses/nIn
 		for u := 0; u < perIn; u++ {
 			cs, es := call(0)
